@@ -233,7 +233,14 @@ func (t *Template) recover(errp *error) {
 	return
 }
 
-func (s *Set) parse(name, text string, cacheAfterParsing bool, loading ...string) (t *Template, err error) {
+func (s *Set) parse(name, text string, cacheAfterParsing bool, state ...*loadState) (t *Template, err error) {
+	var ld *loadState
+	if len(state) > 0 {
+		ld = state[0]
+	}
+	if ld == nil {
+		ld = &loadState{done: make(map[string]*Template)}
+	}
 	t = &Template{
 		Name:         name,
 		ParseName:    name,
@@ -248,7 +255,7 @@ func (s *Set) parse(name, text string, cacheAfterParsing bool, loading ...string
 	lexer.setCommentDelimiters(s.leftComment, s.rightComment)
 	lexer.run()
 	t.startParse(lexer)
-	t.parseTemplate(cacheAfterParsing, loading...)
+	t.parseTemplate(cacheAfterParsing, ld)
 	t.stopParse()
 
 	if t.extends != nil {
@@ -275,7 +282,7 @@ func (t *Template) expectString(context string) string {
 
 // parse is the top-level parser for a template, essentially the same
 // It runs to EOF.
-func (t *Template) parseTemplate(cacheAfterParsing bool, loading ...string) (next Node) {
+func (t *Template) parseTemplate(cacheAfterParsing bool, ld *loadState) (next Node) {
 	t.Root = t.newList(t.peek().pos)
 	// {{ extends|import stringLiteral }}
 	for t.peek().typ != itemEOF {
@@ -294,12 +301,12 @@ func (t *Template) parseTemplate(cacheAfterParsing bool, loading ...string) (nex
 						t.errorf("Unexpected extends clause: the 'extends' clause should come before all import clauses")
 					}
 					var err error
-					t.extends, err = t.set.getSiblingTemplate(s, t.Name, cacheAfterParsing, loading...)
+					t.extends, err = t.set.getSiblingTemplate(s, t.Name, cacheAfterParsing, ld)
 					if err != nil {
 						t.error(err)
 					}
 				} else {
-					tt, err := t.set.getSiblingTemplate(s, t.Name, cacheAfterParsing, loading...)
+					tt, err := t.set.getSiblingTemplate(s, t.Name, cacheAfterParsing, ld)
 					if err != nil {
 						t.error(err)
 					}
